@@ -9,6 +9,7 @@ pub mod c03;
 pub mod c04;
 pub mod c05;
 pub mod c06;
+pub mod c07;
 pub mod c09;
 pub mod c10;
 pub mod c11;
@@ -26,10 +27,13 @@ pub struct Check {
 }
 
 pub fn all() -> Vec<Check> {
-    vec![c01::CHECK, c02::CHECK, c03::CHECK, c04::CHECK, c05::CHECK, c06::CHECK, c09::CHECK, c10::CHECK, c11::CHECK, c12::CHECK, c13::CHECK, c14::CHECK]
+    vec![c01::CHECK, c02::CHECK, c03::CHECK, c04::CHECK, c05::CHECK, c06::CHECK, c07::CHECK, c09::CHECK, c10::CHECK, c11::CHECK, c12::CHECK, c13::CHECK, c14::CHECK]
 }
 
 /// entry point of worker subprocesses (C08, C18, C20)
-pub fn worker_main(_args: &[String]) -> i32 {
-    2
+pub fn worker_main(args: &[String]) -> i32 {
+    match args.first().map(|s| s.to_lowercase()).as_deref() {
+        Some("c07") => c07::worker(&args[1..]),
+        _ => 2,
+    }
 }
